@@ -183,11 +183,18 @@ def check_cleanup(program, rep):
                 if m is not None:
                     p = m.params()[1] if len(m.params()) > 1 else None
                     t = ast.unparse(m.node)
+                    ev_alias = {t_.id for n in ast.walk(m.node)
+                                if isinstance(n, ast.Assign)
+                                and EVENTS in norm(n.value)
+                                for t_ in n.targets
+                                if isinstance(t_, ast.Name)}
                     rem_events = any(
                         isinstance(n, ast.Call) and isinstance(
                             n.func, ast.Attribute)
                         and n.func.attr in ('remove', 'discard')
-                        and EVENTS in norm(n.func.value)
+                        and (EVENTS in norm(n.func.value) or (
+                            isinstance(n.func.value, ast.Name)
+                            and n.func.value.id in ev_alias))
                         for n in ast.walk(m.node))
                     rem_handlers = any(
                         (isinstance(n, ast.Delete) and any(
